@@ -14,7 +14,9 @@ from vf.strategies import CRS_POOL, SINU_PROJ, mk_crs_spec
 RULE = (
     "Hypothesis grids: tile shape 1..100 per axis, resolution magnitude from {10,0.5,30,0.25,1,100} (exact dyadic "
     "family) or {7.3,0.1,1/3,random 1e-3..1e3} (general), either sign per axis, origin from {default,0,dyadic,integer "
-    "up to 2^20 | float up to 1e3 | float up to 1e7}, flipx/flipy, tile indices in [-50,50]^2 (biased to 0,+-1,+-50); "
+    "up to 2^20 | float up to 1e3 | float up to 1e7}, flipx/flipy, tile indices in [-50,50]^2 (biased to 0,+-1,+-50; 3 "
+    "indices per grid for the geobox clause, 4 probe points per grid for point lookup: pixel centres, points at "
+    "{0,1e-9,1e-6,1e-3,0.3 tile,few ulp} inside/outside each edge, random interior points); "
     "queries (boxes, triangles, L-shapes, polygons with a hole) with every edge/vertex at a tile edge + offset from "
     "{0,+-1e-9,+-3e-9,+-5e-8,+-1e-6,+-0.3 tile,0.5 tile}; polygons in another CRS of the vf.strategies pool; zoom "
     "0..22 x tiles {0, 2^z-1, 2^(z-1), random}.  Oracles: exact rational model of the binning (origin + cell*tile "
@@ -907,7 +909,8 @@ def o_xcrs(case, T):
     if namb:
         T.exclude("ambiguous_tiles", namb)
     if nreq and nforb:
-        M.classify(T, idx)
+        T.cls("query_splits_window")
+    M.classify(T, idx)
 
 
 # ----------------------------------------------------------------------------- 7. from_sample_tile
